@@ -67,7 +67,7 @@ def do_replay(prop, path):
     if not ok:
         print(out[-3000:])
         return 2
-    hbin = vf.build_harness(*prop.HARNESS)
+    hbin = vf.build_harness(prop.HARNESS)
     c = Case("replay", ops)
     a = vf.run_program(hbin, [c])["replay"]
     b = vf.run_program(vf.driver_path(prop.DRIVER), [c])["replay"]
@@ -130,7 +130,7 @@ def main():
     # ---- harness ------------------------------------------------------------
     hbin = None
     try:
-        hbin = vf.build_harness(*prop.HARNESS)
+        hbin = vf.build_harness(prop.HARNESS)
     except vf.BuildError as e:
         problems.append({"what": "correspondence harness does not build against the current tree",
                          "errors": [str(e)[-1500:]]})
